@@ -27,6 +27,8 @@ impl World {
         self.tr_event(TrEv::SetStatus(v));
         if v == 0 {
             self.device_reset();
+        } else if self.tr.features_ok_not_latched {
+            self.tr.status = v & !crate::world::ST_FEATURES_OK;
         } else {
             self.tr.status = v;
         }
@@ -317,7 +319,9 @@ impl Drop for ModelTransport {
         if world::installed() {
             world::with(|w| {
                 w.tr_event(TrEv::Dropped);
-                w.t_set_status(0);
+                if !(w.tr.no_reset_on_drop && !w.tr.pci_like) {
+                    w.t_set_status(0);
+                }
             });
         }
     }
